@@ -117,6 +117,7 @@ type T struct {
 	C    uint64 // constant bits (Bool: 0/1; BV: value masked; FP: IEEE bits) or op parameter
 	Name string // OVar
 	ID   int
+	HasFP bool // some subterm is a floating-point operation
 	// solver bookkeeping (per Store, single owner)
 	DefEpoch int
 	vars     []*T // cached free vars (lazily)
@@ -170,6 +171,14 @@ func (s *Store) mk(op Op, sort Sort, c uint64, name string, args []*T) *T {
 		return t
 	}
 	t := &T{Op: op, Sort: sort, Args: args, C: c, Name: name, ID: s.next}
+	if op >= OFAdd && op <= OFRound {
+		t.HasFP = true
+	}
+	for _, a := range args {
+		if a.HasFP {
+			t.HasFP = true
+		}
+	}
 	s.next++
 	s.tab[k] = t
 	return t
